@@ -38,6 +38,8 @@ PLAN = {
     "witnesses": [
         {"match": r"write_metric_line", "src": "witness_unit_suffix.rs", "crate": "metrics-exporter-prometheus",
          "file": "metrics-exporter-prometheus/src/formatting.rs"},
+        {"match": r"(fn render|recorder\.verus)", "name": "impl Inner :: fn render", "src": "witness_render_families.rs", "crate": "metrics-exporter-prometheus",
+         "file": "metrics-exporter-prometheus/src/recorder.rs"},
         {"match": r"(fn key_to_parts|labels\.verus)", "name": "fn key_to_parts", "src": "witness_label_names.rs", "crate": "metrics-exporter-prometheus",
          "file": "metrics-exporter-prometheus/src/formatting.rs"},
     ],
